@@ -1090,7 +1090,8 @@ def case_gff(rng, ctx):
     annot = B.Annotation([make_feature(x) for x in feats])
     f = GFFFile()
     try:
-        B.gff.set_annotation(f, annot, seqid=seqid, source=source, is_stranded=stranded)
+        from vf.core import drop_defaults
+        B.gff.set_annotation(f, annot, **drop_defaults(ctx, dict(seqid=seqid, source=source, is_stranded=stranded), dict(seqid=None, source=None, is_stranded=True)))
     except ValueError as e:
         ctx.exc(e)
         if seqid is not None and " " in seqid and "whitespace" in str(e):
